@@ -6,7 +6,7 @@ from .. import AnalysisError
 from ..flow import show, walk_term
 from ..report import ob_ok, ob_fail
 from .common import (is_call, method_call, node_attr, edge_attr, elem_of, strip_wrappers, guards_of,
-                     enclosing_loops, need, contains)
+                     enclosing_loops, need, contains, aug_like)
 
 SELF = ("param", "self")
 
@@ -352,8 +352,9 @@ def norm_bead(repo, tier="quick"):
     oid = "NORM.bead"
     acc = None
     for n in cfg.nodes:
-        if n.kind == "stmt" and isinstance(n.ast, ast.AugAssign) and isinstance(n.ast.op, ast.Add) and isinstance(n.ast.target, ast.Name):
-            v = fl.canon(n.ast.value, n.id)
+        al = aug_like(n.ast) if n.kind == "stmt" and isinstance(n.ast, (ast.AugAssign, ast.Assign)) else None
+        if al and al[1] is ast.Add:
+            v = fl.canon(al[2], n.id)
             if v[0] == "binop" and v[1] == "*":
                 for p, w in ((v[2], v[3]), (v[3], v[2])):
                     na = node_attr(p)
@@ -361,7 +362,7 @@ def norm_bead(repo, tier="quick"):
                     if na and na[0] == aa and na[2] == ("const", "position") and ew and ew[0] == "value":
                         ek = elem_of(na[1])
                         if ek and ek[0] == "key" and ek[1] == ew[1]:
-                            acc = (n, n.ast.target.id, strip_wrappers(ew[1]))
+                            acc = (n, al[0], strip_wrappers(ew[1]))
     if acc is None:
         raise AnalysisError("forward_map_molecule: cannot find `pos += aa.nodes[n]['position'] * weight` over weights.items()", fi.where())
     n, var, W = acc
@@ -413,8 +414,9 @@ def norm_bead(repo, tier="quick"):
     if d[0] == "var":
         # accumulated total of the same weights
         for dd in fl.reaching(d[1], m.id):
-            if dd.kind == "aug" and isinstance(dd.value.op, ast.Add):
-                ev = elem_of(fl.canon(dd.value.value, dd.node))
+            al2 = aug_like(dd.ast) if dd.ast is not None and isinstance(dd.ast, (ast.AugAssign, ast.Assign)) else None
+            if al2 and al2[1] is ast.Add:
+                ev = elem_of(fl.canon(al2[2], dd.node))
                 if ev and ev[0] == "value" and strip_wrappers(ev[1]) == W:
                     ok = True
     (obs.append(ob_ok(oid, fi, m.ast, construct="weighted sum / sum(weights)", instance="divisor",
@@ -521,13 +523,14 @@ def norm_scale(repo, tier="quick"):
                     continue
                 if d.id not in acc[2]:
                     continue
-                if d.kind == "assign":
+                al3 = aug_like(d.ast) if d.ast is not None and isinstance(d.ast, (ast.AugAssign, ast.Assign)) else None
+                if al3 and al3[0] == acc[1]:
+                    n_aug += 1
+                    if not (al3[1] is ast.Add and is_edge_len(fl.canon(al3[2], d.node), True)):
+                        good = False
+                elif d.kind == "assign":
                     v = fl.canon(d.value, d.node)
                     if v not in (("const", 0), ("const", 0.0)):
-                        good = False
-                elif d.kind == "aug":
-                    n_aug += 1
-                    if not (isinstance(d.value.op, ast.Add) and is_edge_len(fl.canon(d.value.value, d.node), True)):
                         good = False
                 else:
                     good = False
